@@ -32,6 +32,12 @@ Definition espec (s : spectrum QcF) : list Z :=
   ++ eQ (trapz QcF (s_wave _ s) (s_value _ s)).
 Definition qleb (x y : Qc) : bool := Qle_bool (this x) (this y).
 
+Fixpoint samples_of (f : uname -> list Qc -> result (list Qc)) (sm : list (uname * list Qc)) : result (list (list Qc)) :=
+  match sm with
+  | [] => Ok []
+  | (su, pts) :: r => rbind (f su pts) (fun v => rbind (samples_of f r) (fun vs => Ok (v :: vs)))
+  end.
+
 Definition run (inp : list Z) : list Z :=
   match inp with
   | op :: rest =>
@@ -89,6 +95,29 @@ Definition run (inp : list Z) : list Z :=
           then let '(s1, o) := to_st QcF cH cC qleb (mkSpec QcF ws vs wu vu) args in
                0 :: espec s1 ++ eopt (fun e => [errcode e]) o
           else emalformed
+      | None => emalformed end
+    else if op =? 9 then
+      (* Blackbody(...) ; .to(args) ; then .sample(points, unit) for each (unit, points) *)
+      match pall (ws <- plist pQ ;; t <- pQ ;; wn <- puname ;; vn <- puname ;; tab <- plist (ppair pQ pQ) ;;
+                  args <- plist puname ;; sm <- plist (ppair puname (plist pQ)) ;; pret (ws, t, wn, vn, tab, args, sm)) rest with
+      | Some (ws, t, wn, vn, tab, args, sm) =>
+          eresult (fun x => x)
+            (rbind (blackbody QcF cH cC cK (lookup tab) ws t wn vn) (fun s0 =>
+             rbind (to QcF cH cC s0 args) (fun s =>
+             rbind (samples_of (fun su pts => bb_sample QcF cH cC cK (lookup tab) s t pts su) sm) (fun ls =>
+             Ok (espec s ++ flat_map (elist eQ) ls)))))
+      | None => emalformed end
+    else if op =? 10 then
+      (* Blackbody.vegamag(...) ; .to(args) ; then .sample(points, unit) for each (unit, points) *)
+      match pall (w0 <- pQ ;; jy <- pQ ;; pw <- pQ ;; t <- pQ ;; ws <- plist pQ ;; wn <- puname ;; vn <- puname ;;
+                  pi <- pQ ;; tab <- plist (ppair pQ pQ) ;; args <- plist puname ;;
+                  sm <- plist (ppair puname (plist pQ)) ;; pret (w0, jy, pw, t, ws, wn, vn, pi, tab, args, sm)) rest with
+      | Some (w0, jy, pw, t, ws, wn, vn, pi, tab, args, sm) =>
+          eresult (fun x => x)
+            (rbind (vegamag QcF cH cC cK pi (lookup tab) w0 jy pw t ws wn vn) (fun s0 =>
+             rbind (to QcF cH cC s0 args) (fun s =>
+             rbind (samples_of (fun su pts => star_sample QcF cH cC cK pi (lookup tab) s w0 jy pw t pts su) sm) (fun ls =>
+             Ok (elist eQ (s_value _ s0) ++ espec s ++ flat_map (elist eQ) ls)))))
       | None => emalformed end
     else emalformed
   | _ => emalformed
